@@ -291,7 +291,7 @@ pub fn run(ctx: &Ctx) -> (Outcome, String, Option<bool>) {
     let out = run_sharded(
         ctx,
         "mints",
-        ctx.scale(80, 600),
+        ctx.scale(240, 1500),
         move || {
             (
                 any::<u8>(),
